@@ -22,11 +22,13 @@ class FakeTopic:
 
 
 class FakeMessage:
-    def __init__(self, topic: str, payload: Any, qos: int = 0) -> None:
+    def __init__(self, topic: str, payload: Any, qos: int = 0, retain: bool = False) -> None:
         self.topic = FakeTopic(topic)
         self.payload = payload
         self.qos = qos
-        self.retain = False
+        self.retain = retain
+        self.mid = 0
+        self.properties = None
 
 
 class FakeMessages:
@@ -92,8 +94,8 @@ class FakeClient:
         self.subscriptions.append((topic, qos))
 
     # harness side
-    def deliver(self, topic: str, payload: bytes, qos: int = 0) -> None:
-        self.queue.put_nowait(FakeMessage(topic, payload, qos))
+    def deliver(self, topic: str, payload: bytes, qos: int = 0, retain: bool = False) -> None:
+        self.queue.put_nowait(FakeMessage(topic, payload, qos, retain))
 
     def deliver_error(self, error: BaseException) -> None:
         self.queue.put_nowait(error)
